@@ -130,8 +130,10 @@ impl<'a, N: Normalizer> XmlSerializer<'a, N> {
                 r
             }
             Prefix(prefix_id, namespace_id) => {
-                // we don't want to output the xml prefix
-                if *namespace_id == self.xot.xml_namespace() {
+                // we don't want to output the declaration of the xml prefix;
+                // any other prefix bound to its namespace needs its declaration
+                if *prefix_id == self.xot.xml_prefix() && *namespace_id == self.xot.xml_namespace()
+                {
                     return Ok(OutputToken {
                         space: false,
                         text: "".to_string(),
